@@ -322,3 +322,8 @@ package core
 //@   loop 1 invariant forall x *directive.Directive :: x <= old(allocmark()) ==> x.Parent == old(x.Parent)
 //@ writers [C06] directive.Directive.type_ : directive.NewWithCallStack
 //@ writers [C06] directive.Directive.HasExplicitContext : (*JApiCore).processContextBegin
+
+// ---------------------------------------------------------------- determinism (C03): every range over a map in the repository
+// The complete list of functions that range over a map. Each of them only COLLECTS the keys and sorts them before
+// anything observable happens (checked by reading; a new map range anywhere else fails this scan by name).
+//@ mapranges [C03] : (*JApiCore).checkMacroForRecursion, (*JApiCore).compileUserTypeWithAllDependencies, (*JApiCore).getPropertiesNames, catalog.prepareJSightSchema
